@@ -628,7 +628,9 @@ class Parser:
         elif len(tokens) == 1:
             return tokens[0]
         else:
-            raise DisambiguationError(Location(head), tokens)
+            # The error is located at the position of the ambiguous tokens,
+            # not at the span of the stack head.
+            raise DisambiguationError(Location(ErrorContext(head)), tokens)
 
     def _next_tokens(self, head):
         """
